@@ -23,3 +23,12 @@ with snapshot.Lock('replay.lock'):
         os.unlink(os.path.join(s, 'tests', f))
     sys.exit(0 if r.returncode == 0 else 1)
 PY
+# (3) the Kani target dir (one harness builds the whole crate for CBMC)
+python3-vt - <<'PY'
+import sys
+sys.path.insert(0, 'engines'); sys.path.insert(0, 'engines/mirsmt')
+import kani_engine
+r = kani_engine.run_harness({'id': 'warm', 'harness': 'k4_paging_new', 'desc': 'warm-up', 'timeout_s': 1500}, {'tier': 'quick'})
+print('kani warm-up:', r['verdict'], r['wall_s'], r.get('detail', ''))
+PY
+exit 0
